@@ -481,6 +481,16 @@ func vMI_Empty() *MessageInfo {
 
 // vType selects a corpus type: its tables and a fresh zero message.
 func vType(k int) (*MessageInfo, pointer) {
+	if k >= 20 {
+		switch k {
+		case 20:
+			return vMI_ScalarsO(), pointer{p: unsafe.Pointer(new(VScalarsO))}
+		case 21:
+			return vMI_ReqO(), pointer{p: unsafe.Pointer(new(VReqO))}
+		default:
+			return vMI_Node(), pointer{p: unsafe.Pointer(new(VNode))}
+		}
+	}
 	if k >= 10 {
 		return vTypeAll(k - 10)
 	}
